@@ -1025,8 +1025,10 @@ func (b *BaseStore) replicationLoadComplete(ctx context.Context, logs []ipfslog.
 	for _, log := range logs {
 		_, err := oplog.Join(log, -1)
 		if err != nil {
+			// a log that cannot be joined (unauthorised or tampered entry) is
+			// dropped; it must not take the rest of the batch with it
 			b.Logger().Error("unable to join logs", zap.Error(err))
-			return
+			continue
 		}
 
 		entries = append(entries, log.GetEntries().Slice()...)
